@@ -1,4 +1,5 @@
 (* Tool (C17): entry : json -> json
+     {"ir": <IR dump>, "runs": [<run>...]} -> {"ok":true, "results":[...]}   where a run is one of the following without "ir"
      {"mode":"spv", "ir": <IR dump>, "words": [...], "fps": bool}
         -> {"ok":true, "decoded":bool, "version":n, "mismatches":[{"kind","name","index"}],
             "expected":{"globals":[...], "eps":[...]}}
@@ -69,9 +70,14 @@ Definition entry (j : json) : json :=
     match dec_module ij with
     | Err e => JObj [("ok", JBool false); ("err", JStr e)]
     | Ok m =>
-      match field_str "mode" j with
-      | Some md => if String.eqb md "text" then run_text j m else run_spv j m
-      | None => run_spv j m
+      let one (r : json) : json :=
+          match field_str "mode" r with
+          | Some md => if String.eqb md "text" then run_text r m else run_spv r m
+          | None => run_spv r m
+          end in
+      match field_arr "runs" j with
+      | Some rs => JObj [("ok", JBool true); ("results", JArr (map one rs))]     (* several runs on one decoded module *)
+      | None => one j
       end
     end
   end.
